@@ -72,7 +72,7 @@ MarksOf(e) == IF PreOK(e) /\ e.haslog
 TInit == l = 1 /\ par = <<>> /\ ch = <<>>
 TNext == /\ l <= Len(Trace)
          /\ LET e == Trace[l] IN
-              /\ PrintT(<<"J", l, e.id, Violated(e), Explained(e), Chained(e), MarksOf(e)>>)
+              /\ PrintT(ToString(<<"J", l, e.id, Violated(e), Explained(e), Chained(e), MarksOf(e)>>))
               \* re-synchronise on the logged post-state (merged into what is known so far)
               /\ par' = [n \in DOMAIN par \cup DOMAIN e.postpar |-> IF n \in DOMAIN e.postpar THEN e.postpar[n] ELSE par[n]]
               /\ ch' = [n \in DOMAIN ch \cup DOMAIN e.postch |-> IF n \in DOMAIN e.postch THEN e.postch[n] ELSE ch[n]]
